@@ -12,7 +12,9 @@ some dump of the globals:
   * from the first input after which N is bound, to value v0 (typed dump), every later dump
     binds N to a dump `==` v0;
   * an input that consists of the identifier N alone (the read probe the generator places after
-    every attempt) evaluates to v0 or to an error.
+    every attempt) evaluates to v0 or to an error;
+  * an input `lc9()` (local probe, second family: the constant is a LOCAL of that call, bound to the literal the
+    top-level constant REF9 holds) evaluates to REF9's value or to an error.
 -/
 namespace Grol.ConstsSuite
 open Grol.E Grol.Wire Grol.EvalSuite Grol.Hazard
@@ -25,6 +27,20 @@ def delMentioned (ast name : String) : Bool :=
 def isProbe (ast name : String) : Bool := ast == "(stmts (id " ++ hexOfName name ++ "))"
 
 def isConstName (n : String) : Bool := !n.isEmpty && isConstant n
+
+/-- the LOCAL probe of the second family (harness/cmd/harness/consts2.go): the input `lc9()`.  `lc9` binds a constant
+as a local of its call (by `=`, `:=` or as a parameter) to the literal the top-level constant `REF9` holds, lets the
+attempts run and ends with the bare name: the call is an error or evaluates to exactly REF9's value -/
+def isLocalProbe (ast : String) : Bool := ast == "(stmts (call (id " ++ hexOfName "lc9" ++ ")))"
+
+def localProbesOk : List String → List String → List (List (String × String)) → Bool
+  | a :: as, o :: os, g :: gs =>
+    (if isLocalProbe a && o != "P" then
+        field o "e" == "1" || field o "p" != "-" || (match g.lookup "REF9" with
+          | some v0 => field o "v" == v0
+          | none => false)
+      else true) && localProbesOk as os gs
+  | _, _, _ => true
 
 def constNames (gs : List (List (String × String))) : List String :=
   gs.foldl (fun acc g => g.foldl (fun acc kv =>
@@ -49,7 +65,7 @@ def stmtFor (name : String) : List String → List String → List (List (String
 /-- C19 on one configuration's observations -/
 def stmt (asts obs : List String) : Bool :=
   let gs := obs.map globalsOf
-  (constNames gs).all fun n => stmtFor n asts obs gs none
+  ((constNames gs).all fun n => stmtFor n asts obs gs none) && localProbesOk asts obs gs
 
 def typeTag (obs : List String) : String :=
   match obs.head? with
